@@ -39,14 +39,25 @@ func hexv(b []byte) string {
 	return fmt.Sprintf("%x", b)
 }
 
-func scenario(seed uint64, idx int, tier string, root string) []runRes {
+// scenarioX runs one scenario and returns, with its results, the encoding of the world and request it used: failures
+// are reported as "SCEN seed idx tier <encoding>", a line that keeps its meaning when the generators change.
+func scenarioX(s common.Scen, root string) ([]runRes, string) {
+	var enc string
+	rs := scenario(s.Seed, s.Idx, s.Tier, root, s.Fixed, &enc)
+	return rs, enc
+}
+
+func scenario(seed uint64, idx int, tier string, root string, fixed string, enc *string) []runRes {
 	rng := common.NewRng(seed*32452843 + uint64(idx))
 	var sc *sys.Scenario
 	for { // worlds with at least one store needed by the output
-		sc = sys.GenScenario(rng)
-		if sc.HasStore() {
+		sc = sys.GenScenarioOr(rng, fixed)
+		if sc.HasStore() || fixed != "" {
 			break
 		}
+	}
+	if enc != nil {
+		*enc = sc.Encode()
 	}
 	w := sc.W
 	dir := filepath.Join(root, fmt.Sprintf("sc%d", idx))
@@ -64,6 +75,15 @@ func scenario(seed uint64, idx int, tier string, root string) []runRes {
 		}
 	}
 	arrivals := sys.GenForkArrivals(rng, base, rng.Range(4, 18), 7)
+	span := uint64(12)
+	// one scenario in twelve: finality stalls and two long branches overtake each other again and again — hundreds of
+	// block executions between two final blocks, each block applied and undone many times
+	long := rng.Chance(1, 12)
+	if long {
+		depth, rounds := rng.Range(25, 40), rng.Range(7, 9)
+		arrivals = sys.GenPingPongArrivals(rng, base, depth, rounds)
+		span = uint64(depth + 2*rounds + 10) // the stop block stays above every branch
+	}
 	var storeOrder []string
 	for _, m := range w.Mods {
 		if m.Kind == "store" {
@@ -72,8 +92,8 @@ func scenario(seed uint64, idx int, tier string, root string) []runRes {
 	}
 	var rec []sys.RecStep
 	var pipe *pipeline.Pipeline
-	req := sys.Req{Prod: false, Start: int64(sc.Start), Stop: base + 12, Final: base, Head: base + 8, Seg: sc.Seg, Workers: 1, Output: sc.Output}
-	r := w.Run(dir, req, sys.Opts{Timeout: 12 * time.Second, OnPipe: func(p *pipeline.Pipeline) { pipe = p },
+	req := sys.Req{Prod: false, Start: int64(sc.Start), Stop: base + span, Final: base, Head: base + span - 4, Seg: sc.Seg, Workers: 1, Output: sc.Output}
+	r := w.Run(dir, req, sys.Opts{Timeout: 30 * time.Second, OnPipe: func(p *pipeline.Pipeline) { pipe = p },
 		Feed: sys.ForkFeed(arrivals, base, storeOrder, &rec, &pipe)})
 	var handoff uint64
 	for _, m := range r.Msgs {
@@ -108,7 +128,7 @@ func scenario(seed uint64, idx int, tier string, root string) []runRes {
 		}
 	}
 	rr := runRes{line: fmt.Sprintf("FRK %d %s %s %d %d %d %s", sqe.MaxRecursionDeepness, w.Encode(), sc.Output, handoff, gate, req.Stop, strings.Join(steps, " ")),
-		ans: strings.Join(stores, " | ") + " || " + strings.Join(msgs, " "), counts: []string{"err:" + r.ErrClass()}}
+		ans: strings.Join(stores, " | ") + " || " + strings.Join(msgs, " "), counts: []string{"err:" + r.ErrClass(), fmt.Sprintf("long-ping-pong:%v", long), fmt.Sprintf("steps:%d", min(len(rec)/50*50, 600))}}
 	fail := func(class, desc string) { rr.fails = append(rr.fails, [2]string{class, desc}) }
 	if r.Err != nil {
 		fail("C03/request-fails", fmt.Sprintf("%v", r.Err))
@@ -269,9 +289,8 @@ func main() {
 	}
 	if lines := o.ReplayLines(); lines != nil {
 		for _, l := range lines {
-			f := strings.Fields(l)
-			if len(f) >= 4 && f[0] == "SCEN" {
-				emit(scenario(common.Atou(f[1]), common.Atoi(f[2]), f[3], root), l)
+			if psc, ok := common.ParseScen("SCEN", l); ok {
+				emit(scenario(psc.Seed, psc.Idx, psc.Tier, root, psc.Fixed, nil), l)
 			}
 		}
 		return
@@ -284,6 +303,7 @@ func main() {
 	scens := o.Scens("SCEN", n)
 	n = len(scens)
 	results := make([][]runRes, n)
+	encs := make([]string, n)
 	var wg sync.WaitGroup
 	sem := make(chan struct{}, 12)
 	for i := 0; i < n; i++ {
@@ -292,11 +312,11 @@ func main() {
 		go func(i int) {
 			defer wg.Done()
 			defer func() { <-sem }()
-			results[i] = scenario(scens[i].Seed, scens[i].Idx, scens[i].Tier, filepath.Join(root, fmt.Sprintf("k%d", i)))
+			results[i], encs[i] = scenarioX(scens[i], filepath.Join(root, fmt.Sprintf("k%d", i)))
 		}(i)
 	}
 	wg.Wait()
 	for i, rs := range results {
-		emit(rs, scens[i].String())
+		emit(rs, common.Scen{Seed: scens[i].Seed, Idx: scens[i].Idx, Tier: scens[i].Tier, Fixed: encs[i]}.String())
 	}
 }
